@@ -26,15 +26,15 @@ U64 = 2 ** 64 - 1
 CHUNK_ACTIONS = ["MCChunk", "MCBudget", "MCSigStart", "MCSigSeg", "MCSigStop"]
 
 # programs whose suspension profile is small enough to be measured exactly
-EXACT = ["as:0", "as:2", "as3", "typeid", "exec:1", "exec:2", "exec_witness:2"]
+EXACT = ["as:0", "as:2", "as3", "typeid", "exec:1", "load_even_global:1", "exec:2", "exec_witness:2", "load_even_global:2"]
 # opaque programs (multi-VM, exec chains, failures); second field: heavy (thorough tier / fewer schedules)
 OPAQUE_QUICK = ["cases:1", "cases:3", "cases:5", "cases:6", "cases:7", "cases:9", "cases:2", "cases:4", "cases:12",
                 "cases:13", "strcat", "spawn_exec", "current_cycles", "io:128:1", "fail:0", "fail:2", "mix:1", "mix:2",
-                "mix:5", "exec:1", "saturate", "create17", "typeid_create:0", "typeid_badhash:1", "typeid_two", "typeid_args:2"]
+                "mix:5", "exec:1", "load_even_global:2", "load_even_global:0", "saturate", "create17", "typeid_create:0", "typeid_badhash:1", "typeid_two", "typeid_args:2"]
 OPAQUE_THOROUGH = ["cases:%d" % i for i in range(1, 20)] + [
     "strcat", "strcat_wrap", "spawn_exec", "current_cycles", "spawn_cycles", "spawn_times", "io:128:1", "io:1152:0",
     "fail:0", "fail:1", "fail:2", "mix:1", "mix:2", "mix:5", "mix:9", "exec:1", "exec:2", "exec_witness:1",
-    "saturate", "create17", "recursive", "fuzzing:1", "fuzzing:2", "fuzzing:3",
+    "saturate", "create17", "recursive", "load_even_global:0", "load_even_global:1", "load_even_global:2", "fuzzing:1", "fuzzing:2", "fuzzing:3",
     "typeid_create:0", "typeid_create:2", "typeid_badhash:1", "typeid_two", "typeid_args:2"]
 
 
@@ -170,7 +170,7 @@ def exact_binding(c, progs, tier, rng):
         with open(pf, "w") as f:
             json.dump({"groups": groups, "limits": lims, "budgets": buds}, f)
         res = V.tlc(PID, "MC_ScriptChunk", "MC_ScriptChunk_file.cfg", workers=8, timeout=900, env={"C05_PROFILE": pf},
-                    tag="file_" + p.replace(":", "_"), xmx="8g")
+                    tag="file_" + p.replace(":", "_"), xmx="8g", xss="1g")
         if res["violated"]:
             c.violation("model/%s/%s" % (res["violated"], p), "ScriptChunk.tla violates %s on the measured profile of %s"
                         % (res["violated"], p), {"kind": "model", "prog": p, "profile": pf, "tlc_tail": res["out"][-2000:]})
@@ -887,7 +887,7 @@ def run(tier):
         "error messages are compared by class (exit code / VM error text / cycle limit), not byte for byte",
     ]
     model_checking(c, tier)
-    exact_binding(c, EXACT if tier == "thorough" else EXACT[:5], tier, rng)
+    exact_binding(c, EXACT if tier == "thorough" else EXACT[:6], tier, rng)
     shapes = abstract_shapes(c)
     dag_models = run_vmsched(c, tier, rng, shapes)
     opaque_binding(c, OPAQUE_THOROUGH if tier == "thorough" else OPAQUE_QUICK, tier, rng, shapes, dag_models)
